@@ -370,6 +370,51 @@ def my_unit_string(sg):
     return num + "/" + den
 
 
+def user_subclass_checks(U):
+    SI = U.SI
+    bad = []
+    try:
+        parent = U.Torque
+        U.Torque(2.0).sisig()
+        (U.Torque(2.0) * U.Dimensionless(2.0))
+
+        class RotationalStiffness(parent):
+            _baseunit = "Nm/rad"
+            _units = {"Nm/rad": 1.0, "kNm/rad": 1000.0}
+            _displayunits = {}
+            _descriptions = {"Nm/rad": "newton metre per radian",
+                             "kNm/rad": "kilonewton metre per radian"}
+            _sidict = {"kg": 1, "m": 2, "s": -2, "rad": -1}
+            _mul = {}
+            _div = {}
+        want = [-1, 0, 1, 2, -2, 0, 0, 0, 0]
+        k = RotationalStiffness(3.0, "kNm/rad")
+        if list(k.sisig()) != want or list(RotationalStiffness.sisig()) != \
+                want:
+            bad.append(("user-subclass-signature", list(k.sisig()), want))
+        if list(U.Torque(1.0).sisig()) != [0, 0, 1, 2, -2, 0, 0, 0, 0]:
+            bad.append(("parent-signature-changed",
+                        list(U.Torque(1.0).sisig())))
+        g = k.asSI()
+        if list(g.sisig()) != want or float(g) != 3000.0:
+            bad.append(("user-subclass-asSI", list(g.sisig()), float(g)))
+        r = k * U.Angle(2.0)
+        if list(r.sisig()) != [0, 0, 1, 2, -2, 0, 0, 0, 0] or \
+                float(r) != 6000.0:
+            bad.append(("user-subclass-product", list(r.sisig()), float(r)))
+        try:
+            U.Torque(7.0).asSI().as_quantity(RotationalStiffness)
+            bad.append(("torque-signature-accepted-as-user-subclass",))
+        except ValueError:
+            pass
+        q = g.as_quantity(RotationalStiffness)
+        if type(q) is not RotationalStiffness or float(q) != 3000.0:
+            bad.append(("user-subclass-as_quantity", type(q).__name__))
+    except Exception as ex:  # noqa
+        bad.append(("user-subclass-raised", type(ex).__name__, str(ex)[:80]))
+    return bad
+
+
 def si_worker(task):
     kidx, nz = task
     import pydsol.core.units as U
@@ -409,6 +454,32 @@ def si_worker(task):
                             bad.append(("roundtrip", sg, (div, hat, dot), st,
                                         back))
     if kidx == 0 and nz == 1:
+        # unparsable unit texts are refused, every time they are offered
+        for txt in ("m/sec", "km/h", "N.m", "cdcd", "m^22", "s-", "kgg",
+                    "m//s", "1/s", "m s", "µm", "m2x", "x"):
+            for attempt in (1, 2, 3):
+                n += 1
+                try:
+                    got = SI.str_to_sisig(txt)
+                    bad.append(("unparsable-unit-accepted", txt, attempt,
+                                list(got)))
+                except ValueError:
+                    pass
+                except Exception as ex:  # noqa
+                    bad.append(("unparsable-unit-wrong-exception", txt,
+                                attempt, type(ex).__name__))
+            n += 1
+            try:
+                SI(1.0, txt)
+                bad.append(("unparsable-unit-accepted-by-SI", txt))
+            except ValueError:
+                pass
+            except Exception as ex:  # noqa
+                bad.append(("unparsable-unit-wrong-exception-SI", txt,
+                            type(ex).__name__))
+        # a quantity type defined by a user on top of a library type, with
+        # its own signature (N.m/rad on top of Torque): used after the parent
+        bad += user_subclass_checks(U)
         # the SI unit text of every named quantity class, in every format,
         # names the signature of that class
         for q in U.QUANTITIES:
